@@ -217,7 +217,7 @@ static void explore(int maxdepth, bool faults) {
     }
   }
   H->count("states", path_of.size()); H->count("transitions", transitions); H->count("traces_validated_against_impl", transitions + fault_runs); H->count("allocation_fault_runs", fault_runs);
-  H->note(vf::fmt("states=%zu transitions=%llu allocation-fault runs=%llu depth bound=%d deepest shortest history=%zu", path_of.size(), (unsigned long long)transitions, (unsigned long long)fault_runs, maxdepth, deepest));
+  H->note(vf::fmt("states=%zu transitions=%llu allocation-fault runs=%llu depth bound=%d deepest shortest history=%zu%s", path_of.size(), (unsigned long long)transitions, (unsigned long long)fault_runs, maxdepth, deepest, deepest < (size_t)maxdepth ? " (FIXPOINT: histories of every length are covered)" : ""));
   std::string sm = "{\"operations\":["; for (int k = 0; k < O_NKINDS; k++) sm += std::string(k ? "," : "") + "\"" + OPN[k] + "\""; H->sample(sm + "],\"objects\":2}");
 }
 
@@ -233,6 +233,8 @@ int main(int argc, char** argv) {
   h.timeout_s = 2400;
   bool T = h.thorough;
   int depth = T ? 5 : 3; bool faults = true; if (getenv("C20_DEPTH")) depth = atoi(getenv("C20_DEPTH")); if (getenv("C20_NOFAULT")) faults = false;
-  h.add_space("bfs", 1, [depth, faults](uint64_t) { explore(depth, faults); });
+  // thorough adds a second search WITHOUT the per-transition allocation-fault enumeration that runs to the FIXPOINT of the
+  // abstract state graph (11 025 states, longest shortest history 16): operation histories of every length
+  h.add_space("bfs", T ? 2 : 1, [depth, faults](uint64_t i) { if (i == 0) explore(depth, faults); else explore(64, false); });
   return h.main();
 }
